@@ -10,6 +10,7 @@ use crate::prop::{Ctx, Tier};
 use crate::util::{hex, unhex, werr, Rng};
 use gimli::read;
 use gimli::write::{
+    FileId, LineString, Location, LocationList, LocationListId, Range, RangeList, RangeListId,
     Address, AttributeValue as AV, DebugInfoRef, Dwarf, DwarfUnit, EndianVec, Expression, LineProgram,
     LineStringId, Sections, StringId, Unit, UnitEntryId,
 };
@@ -58,6 +59,21 @@ enum Val {
     /// the constant-class variants (`Encoding`, `Language`, …): kind name and raw value
     Class(&'static str, u64),
     File0,
+    /// `FileIndex(Some(k-th extra file of the unit's line program))`
+    File(usize),
+    /// `RangeListRef(k-th list added to the unit's table)`; expected section offset (for the Model)
+    RngList(usize, u64),
+    /// `LocationListRef(k-th list)`; expected section offset
+    LocList(usize, u64),
+}
+
+/// the unit's line program
+#[derive(Clone, Debug, PartialEq)]
+enum Lp {
+    None,
+    /// `nfiles` extra files; with one sequence (`rows`) or without any instruction; expected
+    /// `.debug_line` offset (for the Model)
+    Prog { rows: bool, nfiles: usize, off: u64 },
 }
 
 #[derive(Clone, Debug, Default)]
@@ -82,6 +98,10 @@ struct UnitR {
     version: u16,
     format: Format,
     asz: u8,
+    lp: Lp,
+    /// range lists as (begin, length) pairs; location lists as (begin, length, expression bytes)
+    rls: Vec<Vec<(u64, u64)>>,
+    lls: Vec<Vec<(u64, u64, Vec<u8>)>>,
     ops: Vec<Op>,
     /// mirror of `Unit.entries` after all ops
     entries: Vec<EntryR>,
@@ -109,6 +129,10 @@ struct Parser<'a> {
     reserved: Vec<usize>,
     nstr: usize,
     nlstr: usize,
+    /// of the unit being parsed: extra files (None = no program), range lists, location lists
+    nfiles: Option<usize>,
+    nrl: usize,
+    nll: usize,
 }
 
 impl<'a> Parser<'a> {
@@ -237,6 +261,27 @@ impl<'a> Parser<'a> {
             }
             "str" => Val::Str(self.hexv()?),
             "file0" => Val::File0,
+            "file" => {
+                let k = self.idx()?;
+                if k >= self.nfiles? {
+                    return None;
+                }
+                Val::File(k)
+            }
+            "rnglist" => {
+                let k = self.idx()?;
+                if k >= self.nrl {
+                    return None;
+                }
+                Val::RngList(k, self.u64v()?)
+            }
+            "loclist" => {
+                let k = self.idx()?;
+                if k >= self.nll {
+                    return None;
+                }
+                Val::LocList(k, self.u64v()?)
+            }
             _ => {
                 let (name, bits) = CLASS_KINDS.iter().find(|(n, _)| *n == k)?;
                 let v = if *bits == 64 { self.u64v()? } else { self.nat_lt(1u128 << *bits)? as u64 };
@@ -275,7 +320,7 @@ impl<'a> Parser<'a> {
 }
 
 fn parse(a: &[&str]) -> Option<Req> {
-    let mut p = Parser { t: a, i: 0, reserved: Vec::new(), nstr: 0, nlstr: 0 };
+    let mut p = Parser { t: a, i: 0, reserved: Vec::new(), nstr: 0, nlstr: 0, nfiles: None, nrl: 0, nll: 0 };
     let variant = p.tok()?.to_string();
     let big = match p.tok()? {
         "le" => false,
@@ -306,9 +351,70 @@ fn parse(a: &[&str]) -> Option<Req> {
             _ => return None,
         };
         let asz = p.nat_lt(1 << 8)? as u8;
-        if p.tok()? != "-" {
-            return None; // line programs: not yet
+        let lp = {
+            let t = p.tok()?;
+            if t == "-" {
+                Lp::None
+            } else {
+                let rows = match t.as_bytes().first()? {
+                    b'P' => true,
+                    b'E' => false,
+                    _ => return None,
+                };
+                let (nf, off) = t[1..].split_once('@')?;
+                if nf.is_empty() || off.is_empty() || !nf.bytes().all(|b| b.is_ascii_digit()) || !off.bytes().all(|b| b.is_ascii_digit()) {
+                    return None;
+                }
+                let nfiles = nf.parse::<usize>().ok().filter(|n| *n < 16)?;
+                Lp::Prog { rows, nfiles, off: off.parse::<u64>().ok()? }
+            }
+        };
+        if p.tok()? != "R" {
+            return None;
         }
+        let nrl = p.nat_lt(16)? as usize;
+        let mut rls = Vec::new();
+        for _ in 0..nrl {
+            let n = p.nat_lt(8)? as usize;
+            let mut l = Vec::new();
+            for _ in 0..n {
+                let b = p.nat_lt(100)? as u64;
+                let len = p.nat_lt(100)? as u64;
+                if b == 0 || len == 0 {
+                    return None;
+                }
+                l.push((b, len));
+            }
+            rls.push(l);
+        }
+        if p.tok()? != "Q" {
+            return None;
+        }
+        let nll = p.nat_lt(16)? as usize;
+        let mut lls = Vec::new();
+        for _ in 0..nll {
+            let n = p.nat_lt(8)? as usize;
+            let mut l = Vec::new();
+            for _ in 0..n {
+                let b = p.nat_lt(100)? as u64;
+                let len = p.nat_lt(100)? as u64;
+                if b == 0 || len == 0 {
+                    return None;
+                }
+                l.push((b, len, p.hexv()?));
+            }
+            lls.push(l);
+        }
+        // what the other writers need in order not to fail on their own (they are opaque here)
+        if (lp != Lp::None || nrl > 0 || nll > 0) && (!(2..=5).contains(&version) || !matches!(asz, 1 | 2 | 4 | 8)) {
+            return None;
+        }
+        p.nfiles = match lp {
+            Lp::None => None,
+            Lp::Prog { nfiles, .. } => Some(nfiles),
+        };
+        p.nrl = nrl;
+        p.nll = nll;
         let nops = p.nat_lt(4096)? as usize;
         let root = EntryR { tag: constants::DW_TAG_compile_unit.0, added: true, ..Default::default() };
         let mut entries = vec![root];
@@ -365,7 +471,11 @@ fn parse(a: &[&str]) -> Option<Req> {
                 _ => return None,
             }
         }
-        units.push(UnitR { version, format, asz, ops, entries, reserved: 0 });
+        // `have_base_address` of the list writers is not modelled: no DW_AT_low_pc on such a root
+        if (nrl > 0 || nll > 0) && entries[0].attrs.iter().any(|a| a.0 == constants::DW_AT_low_pc.0) {
+            return None;
+        }
+        units.push(UnitR { version, format, asz, lp, rls, lls, ops, entries, reserved: 0 });
     }
     if p.i != a.len() {
         return None;
@@ -402,6 +512,49 @@ struct Build {
     ids: Vec<Vec<UnitEntryId>>,
     sids: Vec<StringId>,
     lsids: Vec<LineStringId>,
+    /// per unit: ids of the extra files, the range lists, the location lists
+    fids: Vec<Vec<FileId>>,
+    rlids: Vec<Vec<RangeListId>>,
+    llids: Vec<Vec<LocationListId>>,
+}
+
+/// `line_program_in_use()` as the request determines it: a program with instructions, or an
+/// instruction-less one that some entry (attached or not) points into with `FileIndex(Some)`
+fn lp_in_use(u: &UnitR) -> bool {
+    match u.lp {
+        Lp::None => false,
+        Lp::Prog { rows: true, .. } => true,
+        Lp::Prog { rows: false, .. } => u.entries.iter().any(|e| e.attrs.iter().any(|(_, v)| matches!(v, Val::File(_)))),
+    }
+}
+
+fn make_line_program(u: &UnitR) -> (LineProgram, Vec<FileId>) {
+    let enc = Encoding { version: u.version, format: u.format, address_size: u.asz };
+    match u.lp {
+        Lp::None => (LineProgram::none(), Vec::new()),
+        Lp::Prog { rows, nfiles, .. } => {
+            let mut lp = LineProgram::new(
+                enc,
+                gimli::LineEncoding::default(),
+                LineString::String(b"d".to_vec()),
+                None,
+                LineString::String(b"f".to_vec()),
+                None,
+            );
+            let dir = lp.default_directory();
+            let mut fids = Vec::new();
+            for k in 0..nfiles {
+                fids.push(lp.add_file(LineString::String(format!("f{k}").into_bytes()), dir, None));
+            }
+            if rows {
+                lp.begin_sequence(Some(Address::Constant(0x10)));
+                lp.row().line = 7;
+                lp.generate_row();
+                lp.end_sequence(4);
+            }
+            (lp, fids)
+        }
+    }
 }
 
 impl Build {
@@ -483,6 +636,9 @@ impl Build {
             Val::LStrp(k) => AV::LineStringRef(self.lsids[*k]),
             Val::Str(b) => AV::String(b.clone()),
             Val::File0 => AV::FileIndex(None),
+            Val::File(k) => AV::FileIndex(Some(self.fids[u][*k])),
+            Val::RngList(k, _) => AV::RangeListRef(self.rlids[u][*k]),
+            Val::LocList(k, _) => AV::LocationListRef(self.llids[u][*k]),
             Val::Class(k, x) => match *k {
                 "enc" => AV::Encoding(constants::DwAte(*x as u8)),
                 "dsign" => AV::DecimalSign(constants::DwDs(*x as u8)),
@@ -529,16 +685,41 @@ fn build(req: &Req) -> Option<Build> {
         })
     });
     let du = req.variant == "du" && req.units.len() == 1 && !xref;
+    let mut fids = Vec::new();
     let t = if du {
-        Target::Du(DwarfUnit::new(enc(&req.units[0])))
+        let mut d = DwarfUnit::new(enc(&req.units[0]));
+        let (lp, f) = make_line_program(&req.units[0]);
+        d.unit.line_program = lp;
+        fids.push(f);
+        Target::Du(d)
     } else {
         let mut d = Dwarf::new();
         for u in &req.units {
-            d.units.add(Unit::new(enc(u), LineProgram::none()));
+            let (lp, f) = make_line_program(u);
+            d.units.add(Unit::new(enc(u), lp));
+            fids.push(f);
         }
         Target::Dw(d)
     };
-    let mut b = Build { t, ids: Vec::new(), sids: Vec::new(), lsids: Vec::new() };
+    let mut b = Build { t, ids: Vec::new(), sids: Vec::new(), lsids: Vec::new(), fids, rlids: Vec::new(), llids: Vec::new() };
+    for (u, unit) in req.units.iter().enumerate() {
+        let mut r = Vec::new();
+        for l in &unit.rls {
+            let list = RangeList(l.iter().map(|(b, len)| Range::StartLength { begin: Address::Constant(*b), length: *len }).collect());
+            r.push(b.t.unit_mut(u).ranges.add(list));
+        }
+        b.rlids.push(r);
+        let mut q = Vec::new();
+        for l in &unit.lls {
+            let list = LocationList(
+                l.iter()
+                    .map(|(b, len, data)| Location::StartLength { begin: Address::Constant(*b), length: *len, data: Expression::raw(data.clone()) })
+                    .collect(),
+            );
+            q.push(b.t.unit_mut(u).locations.add(list));
+        }
+        b.llids.push(q);
+    }
     for u in 0..req.units.len() {
         let root = b.t.unit_mut(u).root();
         b.ids.push(vec![root]);
@@ -622,7 +803,15 @@ fn intended_order(unit: &UnitR) -> Vec<(Option<usize>, isize)> {
 fn intended_attrs(unit: &UnitR, id: usize) -> Vec<(u16, Val)> {
     let mut a = unit.entries[id].attrs.clone();
     if id == 0 {
-        a.retain(|x| x.0 != constants::DW_AT_stmt_list.0);
+        let n = constants::DW_AT_stmt_list.0;
+        if lp_in_use(unit) {
+            match a.iter_mut().find(|x| x.0 == n) {
+                Some(x) => x.1 = Val::LpRef,
+                None => a.push((n, Val::LpRef)),
+            }
+        } else {
+            a.retain(|x| x.0 != n);
+        }
     }
     a
 }
@@ -647,7 +836,8 @@ fn encodable(req: &Req) -> Option<bool> {
             for (_, v) in intended_attrs(unit, *id) {
                 let ok = match &v {
                     Val::Addr(a) => fits(*a, unit.asz),
-                    Val::AddrSym | Val::IRefSym(_) | Val::LpRef => false,
+                    Val::AddrSym | Val::IRefSym(_) => false,
+                    Val::LpRef => lp_in_use(unit),
                     Val::URef(k) => rank(u, *k).is_some(),
                     Val::IRef(u2, k) => {
                         let size = if unit.version == 2 { unit.asz } else { word };
@@ -727,7 +917,21 @@ fn num(v: &read::AttributeValue<R>) -> Option<u128> {
     })
 }
 
-fn oracle(req: &Req, sections: &Sections<EndianVec<RunTimeEndian>>, endian: RunTimeEndian) -> Result<(), String> {
+/// section offsets found while reading back (the generator puts them into the request line for
+/// the Model, for which line programs and lists are opaque)
+#[derive(Default)]
+struct Found {
+    lp: std::collections::HashMap<usize, u64>,
+    rl: std::collections::HashMap<(usize, usize), u64>,
+    ll: std::collections::HashMap<(usize, usize), u64>,
+}
+
+fn oracle(
+    req: &Req,
+    sections: &Sections<EndianVec<RunTimeEndian>>,
+    endian: RunTimeEndian,
+    mut found: Option<&mut Found>,
+) -> Result<(), String> {
     let dwarf: read::Dwarf<R> = read::Dwarf::load(|id| -> Result<R, ()> {
         Ok(EndianSlice::new(sections.get(id).map(|w| w.slice()).unwrap_or(&[]), endian))
     })
@@ -971,7 +1175,93 @@ fn oracle(req: &Req, sections: &Sections<EndianVec<RunTimeEndian>>, endian: RunT
                         read::AttributeValue::String(s) if s.slice() == &b[..] => {}
                         _ => return bad("attr-value"),
                     },
-                    Val::AddrSym | Val::IRefSym(_) | Val::LpRef => return bad("accepted-unencodable"),
+                    Val::File(k) => {
+                        if rv != read::AttributeValue::Udata(*k as u64 + 1) {
+                            return bad("attr-value");
+                        }
+                    }
+                    Val::LpRef => {
+                        let (Some(off), Lp::Prog { nfiles, .. }) = (num(&rv), &want.lp) else { return bad("line-ref") };
+                        if let Some(f) = found.as_deref_mut() {
+                            f.lp.insert(u, off as u64);
+                        }
+                        // the offset must be a line program header of this unit's version listing the files
+                        match dwarf.debug_line.program(gimli::DebugLineOffset(off as usize), want.asz, None, None) {
+                            Ok(prog) => {
+                                let hd = prog.header();
+                                let expect = nfiles + if want.version >= 5 { 1 } else { 0 };
+                                if hd.version() != want.version || hd.file_names().len() != expect || hd.format() != want.format {
+                                    return bad("line-ref");
+                                }
+                            }
+                            Err(_) => return bad("line-ref"),
+                        }
+                    }
+                    Val::RngList(k, _) => {
+                        let Some(off) = num(&rv) else { return bad("range-ref") };
+                        if let Some(f) = found.as_deref_mut() {
+                            f.rl.insert((u, *k), off as u64);
+                        }
+                        let enc = Encoding { version: want.version, format: want.format, address_size: want.asz };
+                        let mut got: Vec<(u64, u64)> = Vec::new();
+                        match dwarf.ranges.raw_ranges(gimli::RangeListsOffset(off as usize), enc) {
+                            Ok(mut it) => loop {
+                                match it.next() {
+                                    Ok(Some(e)) => match e {
+                                        read::RawRngListEntry::AddressOrOffsetPair { begin, end }
+                                        | read::RawRngListEntry::StartEnd { begin, end }
+                                        | read::RawRngListEntry::OffsetPair { begin, end } => got.push((begin, end)),
+                                        read::RawRngListEntry::StartLength { begin, length } => got.push((begin, begin.wrapping_add(length))),
+                                        _ => return bad("range-ref"),
+                                    },
+                                    Ok(None) => break,
+                                    Err(_) => return bad("range-ref"),
+                                }
+                                if got.len() > 64 {
+                                    return bad("range-ref");
+                                }
+                            },
+                            Err(_) => return bad("range-ref"),
+                        }
+                        let expect: Vec<(u64, u64)> = want.rls[*k].iter().map(|(b, l)| (*b, b + l)).collect();
+                        if got != expect {
+                            return bad("range-ref");
+                        }
+                    }
+                    Val::LocList(k, _) => {
+                        let Some(off) = num(&rv) else { return bad("loc-ref") };
+                        if let Some(f) = found.as_deref_mut() {
+                            f.ll.insert((u, *k), off as u64);
+                        }
+                        let enc = Encoding { version: want.version, format: want.format, address_size: want.asz };
+                        let mut got: Vec<(u64, u64, Vec<u8>)> = Vec::new();
+                        match dwarf.locations.raw_locations(gimli::LocationListsOffset(off as usize), enc) {
+                            Ok(mut it) => loop {
+                                match it.next() {
+                                    Ok(Some(e)) => match e {
+                                        read::RawLocListEntry::AddressOrOffsetPair { begin, end, data }
+                                        | read::RawLocListEntry::StartEnd { begin, end, data }
+                                        | read::RawLocListEntry::OffsetPair { begin, end, data } => got.push((begin, end, data.0.slice().to_vec())),
+                                        read::RawLocListEntry::StartLength { begin, length, data } => {
+                                            got.push((begin, begin.wrapping_add(length), data.0.slice().to_vec()))
+                                        }
+                                        _ => return bad("loc-ref"),
+                                    },
+                                    Ok(None) => break,
+                                    Err(_) => return bad("loc-ref"),
+                                }
+                                if got.len() > 64 {
+                                    return bad("loc-ref");
+                                }
+                            },
+                            Err(_) => return bad("loc-ref"),
+                        }
+                        let expect: Vec<(u64, u64, Vec<u8>)> = want.lls[*k].iter().map(|(b, l, d)| (*b, b + l, d.clone())).collect();
+                        if got != expect {
+                            return bad("loc-ref");
+                        }
+                    }
+                    Val::AddrSym | Val::IRefSym(_) => return bad("accepted-unencodable"),
                 }
             }
         }
@@ -1051,7 +1341,7 @@ fn handle_inner(a: &[&str]) -> Option<String> {
                 hex(sections.debug_str.slice()),
                 hex(sections.debug_line_str.slice())
             );
-            match oracle(&req, &sections, endian) {
+            match oracle(&req, &sections, endian, None) {
                 Ok(()) => Some(s),
                 Err(why) => {
                     // two request classes that the writer accepts although it cannot encode them get
@@ -1077,6 +1367,164 @@ fn handle_inner(a: &[&str]) -> Option<String> {
 }
 
 // ---------------------------------------------------------------------------------------------
+// request line from a `Req` (the generator parses its draft, fills in the offsets, prints it again)
+// ---------------------------------------------------------------------------------------------
+
+fn render_val(v: &Val) -> String {
+    match v {
+        Val::Addr(x) => format!("addr {x}"),
+        Val::AddrSym => "addrsym".into(),
+        Val::Block(b) => format!("block {}", hex(b)),
+        Val::D1(x) => format!("d1 {x}"),
+        Val::D2(x) => format!("d2 {x}"),
+        Val::D4(x) => format!("d4 {x}"),
+        Val::D8(x) => format!("d8 {x}"),
+        Val::D16(x) => format!("d16 {x}"),
+        Val::Sdata(x) => format!("sdata {x}"),
+        Val::Udata(x) => format!("udata {x}"),
+        Val::IConst(x) => format!("iconst {x}"),
+        Val::Expr(items) => {
+            let mut s = format!("expr {}", items.len());
+            for it in items {
+                match it {
+                    Item::Raw(b) => s += &format!(" raw {}", hex(b)),
+                    Item::Conv(k) => s += &format!(" conv {k}"),
+                    Item::Call(k) => s += &format!(" call {k}"),
+                    Item::CallRef(u, k) => s += &format!(" callref {u} {k}"),
+                }
+            }
+            s
+        }
+        Val::Flag(b) => format!("flag {}", *b as u8),
+        Val::FlagP => "flagp".into(),
+        Val::URef(k) => format!("uref {k}"),
+        Val::IRef(u, k) => format!("iref {u} {k}"),
+        Val::IRefSym(x) => format!("irefsym {x}"),
+        Val::IRefSup(x) => format!("irefsup {x}"),
+        Val::LpRef => "lpref".into(),
+        Val::Macinfo(x) => format!("macinfo {x}"),
+        Val::Macro(x) => format!("macro {x}"),
+        Val::Sig8(x) => format!("sig8 {x}"),
+        Val::Strp(k) => format!("strp {k}"),
+        Val::StrpSup(x) => format!("strpsup {x}"),
+        Val::LStrp(k) => format!("lstrp {k}"),
+        Val::Str(b) => format!("str {}", hex(b)),
+        Val::Class(k, x) => format!("{k} {x}"),
+        Val::File0 => "file0".into(),
+        Val::File(k) => format!("file {k}"),
+        Val::RngList(k, off) => format!("rnglist {k} {off}"),
+        Val::LocList(k, off) => format!("loclist {k} {off}"),
+    }
+}
+
+fn render(req: &Req) -> String {
+    let mut s = format!("wunit {} {} S {}", req.variant, if req.big { "be" } else { "le" }, req.strs.len());
+    for x in &req.strs {
+        s += &format!(" {}", hex(x));
+    }
+    s += &format!(" L {}", req.lstrs.len());
+    for x in &req.lstrs {
+        s += &format!(" {}", hex(x));
+    }
+    s += &format!(" U {}", req.units.len());
+    for u in &req.units {
+        let lp = match u.lp {
+            Lp::None => "-".to_string(),
+            Lp::Prog { rows, nfiles, off } => format!("{}{nfiles}@{off}", if rows { "P" } else { "E" }),
+        };
+        s += &format!(" {} {} {} {lp} R {}", u.version, if u.format == Format::Dwarf64 { 64 } else { 32 }, u.asz, u.rls.len());
+        for l in &u.rls {
+            s += &format!(" {}", l.len());
+            for (b, len) in l {
+                s += &format!(" {b} {len}");
+            }
+        }
+        s += &format!(" Q {}", u.lls.len());
+        for l in &u.lls {
+            s += &format!(" {}", l.len());
+            for (b, len, d) in l {
+                s += &format!(" {b} {len} {}", hex(d));
+            }
+        }
+        s += &format!(" {}", u.ops.len());
+        let attrs = |a: &Vec<(u16, Val)>| {
+            let mut t = format!("{}", a.len());
+            for (n, v) in a {
+                t += &format!(" {n} {}", render_val(v));
+            }
+            t
+        };
+        for op in &u.ops {
+            match op {
+                Op::Reserve => s += " R",
+                Op::Add { id, parent, tag, sibling, attrs: a } => s += &format!(" A {id} {parent} {tag} {} {}", *sibling as u8, attrs(a)),
+                Op::Edit { id, sibling, attrs: a } => s += &format!(" E {id} {} {}", *sibling as u8, attrs(a)),
+                Op::Delete { parent, id } => s += &format!(" X {parent} {id}"),
+            }
+        }
+    }
+    s
+}
+
+/// write the draft once with the real crate, read the offsets of the line programs and lists back
+/// and put them into the request (they are inputs of the Model)
+fn fill_offsets(line: &str) -> String {
+    let toks: Vec<&str> = line.split_ascii_whitespace().collect();
+    let Some(mut req) = parse(&toks[1..]) else { return line.to_string() };
+    let needs = req.units.iter().any(|u| u.lp != Lp::None || !u.rls.is_empty() || !u.lls.is_empty());
+    if !needs {
+        return line.to_string();
+    }
+    let endian = if req.big { RunTimeEndian::Big } else { RunTimeEndian::Little };
+    let mut found = Found::default();
+    let wrote = std::panic::catch_unwind(std::panic::AssertUnwindSafe(|| {
+        let Some(mut b) = build(&req) else { return false };
+        let mut sections = Sections::new(EndianVec::new(endian));
+        let ok = match &mut b.t {
+            Target::Dw(d) => d.write(&mut sections).is_ok(),
+            Target::Du(d) => d.write(&mut sections).is_ok(),
+        };
+        if ok {
+            let _ = oracle(&req, &sections, endian, Some(&mut found));
+        }
+        ok
+    }))
+    .unwrap_or(false);
+    if !wrote {
+        return line.to_string();
+    }
+    for (u, unit) in req.units.iter_mut().enumerate() {
+        if let (Lp::Prog { off, .. }, Some(o)) = (&mut unit.lp, found.lp.get(&u)) {
+            *off = *o;
+        }
+        let fix = |a: &mut Vec<(u16, Val)>| {
+            for (_, v) in a.iter_mut() {
+                match v {
+                    Val::RngList(k, off) => {
+                        if let Some(o) = found.rl.get(&(u, *k)) {
+                            *off = *o;
+                        }
+                    }
+                    Val::LocList(k, off) => {
+                        if let Some(o) = found.ll.get(&(u, *k)) {
+                            *off = *o;
+                        }
+                    }
+                    _ => {}
+                }
+            }
+        };
+        for op in unit.ops.iter_mut() {
+            match op {
+                Op::Add { attrs, .. } | Op::Edit { attrs, .. } => fix(attrs),
+                _ => {}
+            }
+        }
+    }
+    render(&req)
+}
+
+// ---------------------------------------------------------------------------------------------
 // generator
 // ---------------------------------------------------------------------------------------------
 
@@ -1093,6 +1541,10 @@ struct GenUnit {
     asz: u8,
     /// parent of each id (index 0 = root, usize::MAX = reserved only)
     n_ids: usize,
+    /// extra files of the line program (None: no program), number of range / location lists
+    nfiles: Option<usize>,
+    nrl: usize,
+    nll: usize,
 }
 
 fn rand_bytes(rng: &mut Rng, max: u64) -> Vec<u8> {
@@ -1117,7 +1569,7 @@ fn gen_val(rng: &mut Rng, u: usize, units: &[GenUnit], nstr: usize, nlstr: usize
     let nu = units.len();
     let some_id = |rng: &mut Rng, u: usize| -> usize { rng.below(units[u].n_ids as u64) as usize };
     loop {
-        let k = rng.below(if malformed { 46 } else { 40 });
+        let k = rng.below(if malformed { 50 } else { 44 });
         return match k {
             0 => format!("addr {}", match units[u].asz { 1 => rng.boundary_u64() & 0xff, 2 => rng.boundary_u64() & 0xffff, 4 => rng.boundary_u64() & 0xffff_ffff, _ => rng.boundary_u64() }),
             1 => format!("block {}", h(&rand_bytes(rng, 40))),
@@ -1192,12 +1644,29 @@ fn gen_val(rng: &mut Rng, u: usize, units: &[GenUnit], nstr: usize, nlstr: usize
                 s
             }
             35..=39 => format!("udata {}", rng.below(300)),
+            40 => match units[u].nfiles {
+                Some(n) if n > 0 => format!("file {}", rng.below(n as u64)),
+                Some(_) => "lpref".into(),
+                None => continue,
+            },
+            41 | 42 => {
+                if units[u].nrl == 0 {
+                    continue;
+                }
+                format!("rnglist {} 0", rng.below(units[u].nrl as u64))
+            }
+            43 => {
+                if units[u].nll == 0 {
+                    continue;
+                }
+                format!("loclist {} 0", rng.below(units[u].nll as u64))
+            }
             // malformed / unencodable
-            40 => "addrsym".into(),
-            41 => format!("irefsym {}", rng.below(10)),
-            42 => "lpref".into(),
-            43 => format!("macinfo {}", rng.boundary_u64()),
-            44 => {
+            44 => "addrsym".into(),
+            45 => format!("irefsym {}", rng.below(10)),
+            46 => "lpref".into(),
+            47 => format!("macinfo {}", rng.boundary_u64()),
+            48 => {
                 if rng.chance(1, 2) {
                     format!("uref {}", units[u].n_ids + rng.below(3) as usize)
                 } else {
@@ -1243,7 +1712,11 @@ fn gen_table(rng: &mut Rng, malformed: bool, big: bool) -> String {
         let cap = if rng.chance(1, 5) { 40 } else { 10 };
         let n_entries = if big { 130 + rng.below(200) as usize } else { rng.below(cap) as usize };
         let extra = if rng.chance(1, 4) { 1 + rng.below(3) as usize } else { 0 };
-        units.push(GenUnit { version, fmt, asz, n_ids: 1 + n_entries + extra });
+        let plain = (2..=5).contains(&version) && matches!(asz, 1 | 2 | 4 | 8);
+        let nfiles = if plain && rng.chance(1, 3) { Some(rng.below(3) as usize) } else { None };
+        let nrl = if plain && rng.chance(1, 4) { 1 + rng.below(3) as usize } else { 0 };
+        let nll = if plain && rng.chance(1, 5) { 1 + rng.below(2) as usize } else { 0 };
+        units.push(GenUnit { version, fmt, asz, n_ids: 1 + n_entries + extra, nfiles, nrl, nll });
     }
     for u in 0..nu {
         let gu = &units[u];
@@ -1276,6 +1749,9 @@ fn gen_table(rng: &mut Rng, malformed: bool, big: bool) -> String {
         let mut root_attrs = String::new();
         let mut n_root_attrs = 0;
         for nm in rng.pick(&shapes).clone() {
+            if nm == 0x11 && (units[u].nrl > 0 || units[u].nll > 0) {
+                continue;
+            }
             let m = malformed && rng.chance(1, 10);
             root_attrs += &format!(" {nm} {}", gen_val(rng, u, &units, nstr, nlstr, &[0], m));
             n_root_attrs += 1;
@@ -1337,7 +1813,35 @@ fn gen_table(rng: &mut Rng, malformed: bool, big: bool) -> String {
                 ops.push(format!("X {p} {victim}"));
             }
         }
-        line += &format!(" {} {} {} - {}", gu.version, gu.fmt, gu.asz, ops.len());
+        let lp = match gu.nfiles {
+            None => "-".to_string(),
+            Some(n) => format!("{}{n}@0", if rng.chance(3, 4) { "P" } else { "E" }),
+        };
+        line += &format!(" {} {} {} {lp} R {}", gu.version, gu.fmt, gu.asz, gu.nrl);
+        // lists, with duplicates (shared lists)
+        let rl_pool: Vec<String> = (0..2)
+            .map(|_| {
+                let n = rng.below(4) as usize;
+                let mut t = format!("{n}");
+                for _ in 0..n {
+                    t += &format!(" {} {}", 1 + rng.below(99), 1 + rng.below(99));
+                }
+                t
+            })
+            .collect();
+        for _ in 0..gu.nrl {
+            line += &format!(" {}", rng.pick(&rl_pool));
+        }
+        line += &format!(" Q {}", gu.nll);
+        for _ in 0..gu.nll {
+            let n = rng.below(3) as usize;
+            line += &format!(" {n}");
+            for _ in 0..n {
+                let k = rng.below(4) as usize;
+                line += &format!(" {} {} {}", 1 + rng.below(99), 1 + rng.below(99), h(&simple_ops(rng, k)));
+            }
+        }
+        line += &format!(" {}", ops.len());
         for o in ops {
             line += " ";
             line += &o;
@@ -1364,6 +1868,7 @@ fn gen_sweep(emit: &mut dyn FnMut(String), rng: &mut Rng) {
         "strp 0".into(), "strp 1".into(), "strp 2".into(), "strpsup 5".into(), "lstrp 0".into(), "str -".into(), "str 616263".into(),
         "enc 255".into(), "dsign 5".into(), "endy 2".into(), "acc 3".into(), "vis 3".into(), "virt 2".into(), "lang 65535".into(), "lang 128".into(),
         "aclass 18446744073709551615".into(), "idcase 3".into(), "cc 255".into(), "inl 3".into(), "ord 1".into(), "file0".into(),
+        "file 0".into(), "file 1".into(), "lpref".into(), "rnglist 0 0".into(), "rnglist 1 0".into(), "loclist 0 0".into(),
         // unencodable
         "addrsym".into(), "irefsym 3".into(), "lpref".into(), "macinfo 4294967296".into(), "irefsup 4294967296".into(), "strpsup 4294967296".into(), "macro 18446744073709551615".into(),
         "addr 256".into(), "addr 65536".into(), "addr 4294967296".into(), "uref 3".into(), "iref 0 3".into(), "expr 1 conv 2".into(), "expr 1 call 3".into(), "expr 1 callref 0 3".into(),
@@ -1382,18 +1887,19 @@ fn gen_sweep(emit: &mut dyn FnMut(String), rng: &mut Rng) {
                         continue;
                     }
                     let e = if i % 2 == 0 { "le" } else { "be" };
+                    let lp = if k.starts_with("file ") || k == "lpref" || i % 7 == 0 { if i % 3 == 0 { "E2@0" } else { "P2@0" } } else { "-" };
                     let sib = (i / 2) % 2;
                     let variant = if k.contains("iref") || k.contains("callref") || i % 3 != 0 { "dw" } else { "du" };
                     // root carries the kind; entry 1 carries it and refers forward to 2; 2 is a base type
                     // (moved before 1) that refers back to 1 and to the root
-                    emit(format!(
-                        "wunit {variant} {e} S 3 666f6f 62 666f6f L 1 6c73 U 1 {version} {fmt} {asz} - 3 E 0 {sib} 2 3 {k} 73 uref 2 A 1 0 46 {sib} 3 3 {k} 73 uref 2 2 {k} A 2 0 36 0 2 73 uref 1 74 uref 0"
-                    ));
+                    emit(fill_offsets(&format!(
+                        "wunit {variant} {e} S 3 666f6f 62 666f6f L 1 6c73 U 1 {version} {fmt} {asz} {lp} R 2 1 5 3 2 9 9 16 4 Q 1 1 7 2 9c 3 E 0 {sib} 2 3 {k} 73 uref 2 A 1 0 46 {sib} 3 3 {k} 73 uref 2 2 {k} A 2 0 36 0 2 73 uref 1 74 uref 0"
+                    )));
                     if i % 5 == 0 {
                         // nested: the kind sits in a child list before a referenced grandchild
-                        emit(format!(
-                            "wunit dw {e} S 3 666f6f 62 666f6f L 1 6c73 U 1 {version} {fmt} {asz} - 4 A 1 0 46 1 1 3 {k} A 2 1 52 1 2 3 {k} 73 uref 3 A 3 2 52 0 1 73 uref 1 A 4 0 46 1 1 73 uref 3"
-                        ));
+                        emit(fill_offsets(&format!(
+                            "wunit dw {e} S 3 666f6f 62 666f6f L 1 6c73 U 1 {version} {fmt} {asz} {lp} R 2 1 5 3 2 9 9 16 4 Q 1 1 7 2 9c 4 A 1 0 46 1 1 3 {k} A 2 1 52 1 2 3 {k} 73 uref 3 A 3 2 52 0 1 73 uref 1 A 4 0 46 1 1 73 uref 3"
+                        )));
                     }
                 }
             }
@@ -1403,12 +1909,21 @@ fn gen_sweep(emit: &mut dyn FnMut(String), rng: &mut Rng) {
 }
 
 pub fn gen(ctx: &Ctx, emit: &mut dyn FnMut(String)) {
+    // `fill_offsets` runs the real writer on drafts, some of which panic by design (a reference to
+    // an id beyond `entries.len()`): keep those quiet
+    let prev = std::panic::take_hook();
+    std::panic::set_hook(Box::new(|_| {}));
+    gen_inner(ctx, emit);
+    std::panic::set_hook(prev);
+}
+
+fn gen_inner(ctx: &Ctx, emit: &mut dyn FnMut(String)) {
     let mut rng = ctx.rng(11);
     gen_sweep(emit, &mut rng);
     let n = ctx.n(6000, 120_000);
     for i in 0..n {
         let malformed = i % 10 == 9;
-        emit(gen_table(&mut rng, malformed, false));
+        emit(fill_offsets(&gen_table(&mut rng, malformed, false)));
     }
     for _ in 0..ctx.n(6, 60) {
         emit(gen_table(&mut rng, false, true));
